@@ -322,7 +322,7 @@ def check(run):
              "name unless it holds its not-given sentinel", floor=15)
     run.rule("R03.2", "no dead parameter in any op forward pass or wrapper; one-line wrappers forward every parameter", floor=150)
     run.rule("R03.3", "op forward values have no data/control dependence on TRACK_GRAPH", floor=6)
-    run.rule("R03.5", "kernel options hard-wired by an op (order=) equal NumPy's defaults", floor=2)
+    run.rule("R03.5", "kernel options hard-wired by an op (order=) equal NumPy's defaults", floor=1)
     run.rule("R03.4", "Tensor._op hands Python scalars to the kernel unconverted; array operands are adopted as is", floor=2)
     r03_1(run)
     r03_2(run)
